@@ -12,6 +12,7 @@ struct Big { long a[8]; };
 static suspend_point<void> cb(awaiter *, void *) noexcept { return {}; }
 generator<int> gen() { for (int i=0;;++i) co_yield i; }
 generator<int,int> gen2() { int a = co_yield nullptr; for(;;) a = co_yield a; }
+generator<Big> gen3() { for (;;) { co_yield Big{}; Big b{}; co_yield std::move(b); } }       // stepping a synchronous generator that yields temporaries
 async<int> co(future<int> &f, mutex &mx) { auto o = co_await mx.lock(); int v = co_await f; bool h = co_await f.has_value(); co_await o.release(); co_return v+h; }
 async<void> cov(future<void> &f, promise<int> &p) { co_await f; co_await p(1); }
 void drv(promise<int> &pi, promise<void> &pv, promise<MO> &pm, promise<int&> &pr, int &ref, std::coroutine_handle<> h) {
@@ -30,6 +31,9 @@ void drv(promise<int> &pi, promise<void> &pv, promise<MO> &pm, promise<int&> &pr
   suspend_point<bool> sb(true); suspend_point<bool> sb2(h, false); suspend_point<bool> sb3(std::move(sp2), true); (void)(bool)sb3; sb3.await_resume();
   auto g = gen(); (void)(bool)g.next(); g.value(); for (auto it = g.begin(); it != g.end(); ++it) { (void)*it; break; } g.done(); (void)(bool)g;
   auto g2 = gen2(); int a = 1; (void)(bool)g2.next(a);
+  auto g3 = gen3(); (void)(bool)g3.next(); (void)g3.value(); { future<Big> fg = g3(); (void)fg.wait(); }
+  // deferred resolution: the bound promise is a callable carrying the promise and the value
+  { future<int> fbnd; auto bnd = fbnd.get_promise().bind(7); bnd(); fbnd.wait(); } { future<void> fbv; auto bnd = fbv.get_promise().bind(); bnd(); fbv.wait(); }
   co(f2, mx).detach(); cov(fv, pi).detach(); (void)pv; (void)pm; (void)pr;
   // awaiting by the callback awaiter, frame in a caller-supplied buffer, callbacks with small and large captures, value and void results
   static char buf1[1024], buf2[1024], buf3[1024]; placement_alloc st1(buf1), st2(buf2), st3(buf3);
